@@ -1,4 +1,5 @@
-(* C07 — untouched inputs and tokens are written verbatim; edits stay local.  Headline theorems only. *)
+(* C07 — untouched inputs and tokens are written verbatim; edits stay local.  Headline theorems only (proofs:
+   Proofs/TreeProofs.v). *)
 From Coq Require Import List String.
 From MPV Require Import Model.Tree Proofs.TreeProofs.
 Import ListNotations.
@@ -11,34 +12,68 @@ Proof. exact format_unchanged. Qed.
 Print Assumptions C07_untouched_verbatim.
 
 (* editing one leaf changes only that leaf's text: everything written before it (pre) and after it
-   (post) is byte-identical; [old] is what the leaf contributed before *)
-Theorem C07_edit_local : forall path n r tok pad np hv ed,
-  leaf_at path n = Some (NV tok pad np hv ed) ->
-  exists pre post old,
+   (post) is byte-identical *)
+Theorem C07_edit_local : forall path n r tok pad np hv ed vl,
+  leaf_at path n = Some (NV tok pad np hv ed vl) ->
+  exists pre post old new,
     fst (format n) = pre ++ old ++ post
-    /\ fst (format (set_leaf path r n)) = pre ++ r ++ post
-    /\ old_text old tok pad np hv ed.
+    /\ fst (format (set_leaf path r n)) = pre ++ new ++ post
+    /\ old_text old tok pad np hv ed vl
+    /\ new_text new r tok pad np vl.
 Proof. exact edit_local. Qed.
 Print Assumptions C07_edit_local.
 
-Theorem C07_edit_local_padded : forall path n r tok pad np ed,
-  leaf_at path n = Some (NV tok pad np true ed) ->
-  (pad <> None \/ np = true) ->
+(* a printed leaf with padding of its own: exactly its own text is replaced by the new rendering in its field *)
+Theorem C07_edit_local_padded : forall path n r tok pd np ed vl,
+  leaf_at path n = Some (NV tok (Some pd) np true ed vl) ->
   exists pre post,
-    fst (format n) = pre ++ fmt_leaf tok pad ed ++ post
-    /\ fst (format (set_leaf path r n)) = pre ++ r ++ post.
+    fst (format n) = pre ++ fmt_leaf tok (Some pd) true ed vl ++ post
+    /\ fst (format (set_leaf path r n)) = pre ++ fmt_changed r (eff_vlen tok (Some pd) vl) (Some pd) ++ post.
 Proof. exact edit_local_padded. Qed.
 Print Assumptions C07_edit_local_padded.
 
-(* every other leaf of the tree is untouched by the edit *)
+(* every other leaf of the tree is untouched by the edit, and by a whole program of edits *)
 Theorem C07_other_leaves_untouched : forall p q n r l,
-  p <> q -> leaf_at q n = Some l -> leaf_at p n <> None ->
-  leaf_at q (set_leaf p r n) = Some l.
+  p <> q -> leaf_at q n = Some l -> leaf_at q (set_leaf p r n) = Some l.
 Proof. exact edit_other_leaves. Qed.
 Print Assumptions C07_other_leaves_untouched.
 
+Theorem C07_program_other_leaves_untouched : forall es q n,
+  (forall e, In e es -> fst e <> q) -> leaf_at q (apply_edits es n) = leaf_at q n.
+Proof. exact edits_other_paths. Qed.
+Print Assumptions C07_program_other_leaves_untouched.
+
+(* lifted to the problem (a list of inputs): an input that no edit of the program names is written with the text
+   of the unedited write, at the same position, and no input appears or disappears *)
+Theorem C07_untouched_cards_verbatim : forall es cards j,
+  (forall e, In e es -> fst (fst e) <> j) ->
+  nth_error (format_all (apply_card_edits es cards)) j = nth_error (format_all cards) j.
+Proof. exact untouched_cards_verbatim. Qed.
+Print Assumptions C07_untouched_cards_verbatim.
+
+Theorem C07_untouched_cards_as_read : forall es cards j c,
+  (forall e, In e es -> fst (fst e) <> j) ->
+  nth_error cards j = Some c -> unedited c = true -> as_parsed c = true ->
+  nth_error (format_all (apply_card_edits es cards)) j = Some (flatten c).
+Proof. exact untouched_cards_as_read. Qed.
+Print Assumptions C07_untouched_cards_as_read.
+
+Theorem C07_cards_count_kept : forall es cards, List.length (apply_card_edits es cards) = List.length cards.
+Proof. exact cards_count_kept. Qed.
+Print Assumptions C07_cards_count_kept.
+
 Example C07_nonvacuous :
-  fst (format (set_leaf [1] "7 " ex_tree)) = "10 7 1 2 3 $ c1 2r" /\
-  fst (format (set_leaf [2; 0] "1.5" ex_tree)) = "10 1.5 2 3 $ c1 2r".
+  fst (format (set_leaf [1] "7" ex_tree)) = "10 7 imp:n,p=1 2.50  3 2r 3 $ c" ++ nl /\
+  fst (format (set_leaf [3; 2] "9" ex_tree)) = "10 imp:n,p=1 9     3 2r 3 $ c" ++ nl /\
+  fst (format (set_leaf [3; 2] "2.123456" ex_tree)) = "10 imp:n,p=1 2.123456 3 2r 3 $ c" ++ nl.
 Proof. exact ex_edit. Qed.
 Print Assumptions C07_nonvacuous.
+
+(* three cards, the second edited twice: the first and third are written as read *)
+Example C07_cards_nonvacuous :
+  nth_error (format_all (apply_card_edits [(1, [3; 2], "9"); (1, [3; 2], "8")] ex_cards)) 0 = Some (flatten ex_tree) /\
+  nth_error (format_all (apply_card_edits [(1, [3; 2], "9"); (1, [3; 2], "8")] ex_cards)) 2 = Some "nps 10" /\
+  nth_error (format_all (apply_card_edits [(1, [3; 2], "9"); (1, [3; 2], "8")] ex_cards)) 1
+    = Some ("10 imp:n,p=1 8     3 2r 3 $ c" ++ nl).
+Proof. exact ex_cards_edit. Qed.
+Print Assumptions C07_cards_nonvacuous.
